@@ -538,6 +538,6 @@ MANIFEST = dict(
     text='Bounded symbolic verification of confinement: SFTPServer.map_path for every client path up to 5-6 characters over {/ . a}; each of the 17 '
          'SFTPServer file operations run on such paths with os.*/open replaced by a recorder - every path that reaches the filesystem layer is '
          'lexically inside the root; the SCP sink driven with two arbitrary C/D records and the recursive SFTP get driven with an arbitrary directory '
-         'entry name - every created/opened/re-stat\'ed path is inside the destination.',
+         'entry name - every created/opened/re-stat\'ed path is inside the destination, also for glob downloads, for listings that name an entry twice (symlink then directory/file, judged on a destination model that follows the links the download itself created), and attributes are never applied through a recreated link.',
     note='Lexical confinement only: symlinks already on disk (and realpath of them) are outside the model; alphabet {/ . a} (+ \\\\ for SCP) and the '
          'length bounds are part of the claim. Trusted: CrossHair, z3, the confinement predicate and recording stubs in props/C13.py.')
